@@ -29,6 +29,18 @@ def GovAt (P : Trait → Prop) (w : World) (oi : Nat) (name : Name) : Prop :=
 def DictAt (w : World) (oi : Nat) (name : Name) (r : Option Val) : Prop :=
   ∃ o, w.objs[oi]? = some o ∧ o.dict.get name = r
 
+/-- A name with a class-dictionary entry in `P` (a declared class trait, say)
+and no instance trait: `GovAt` holds. -/
+theorem GovAt.of_class_trait {P : Trait → Prop} {w : World} {oi : Nat} {name : Name} {o : Obj} {c : Cls} {t : Trait}
+    (ho : w.objs[oi]? = some o) (hc : w.classes[o.cls]? = some c) (hi : o.itraits.get name = none)
+    (hct : c.ctraits.get name = some t) (hP : P t) (htot : Total c) : GovAt P w oi name := by
+  refine ⟨o, c, ho, hc, ?_, ?_, htot⟩
+  · intro t' ht'; rw [hi] at ht'; cases ht'
+  · intro t' ht'
+    rcases ht' with ht' | ⟨ht', _⟩
+    · rw [hct] at ht'; cases ht'; exact hP
+    · rw [hct] at ht'; cases ht'
+
 theorem GovAt.classGovAt {P : Trait → Prop} {w : World} {oi : Nat} {name : Name} (h : GovAt P w oi name) :
     ClassGovAt P w oi name := by
   obtain ⟨o, c, ho, hc, _, hcg, ht⟩ := h
